@@ -74,7 +74,40 @@ struct Gen {
     int64_t sl = slot(); std::string pth = path();
     auto op1 = [&](const char* k) -> Op& { Op& o = add(k); o.a.push_back(sl); o.s.push_back(pth); return o; };
     auto addm = [&](int n) { for (int i = 0; i < n; i++) { Op& o = op1("AddMember"); o.a.push_back((int64_t)r.below(2)); o.s.push_back(model::gen_key(r, go)); o.s.push_back(scalar()); } };
-    switch (r.below(8)) {
+    switch (r.below(9)) {
+      case 8: {   // an object whose keys mix scripts, lengths and shared prefixes (the lookup map orders them): long UTF-8, long ASCII, short,
+                  // keys equal up to an embedded NUL, keys that are prefixes of each other
+        op1("SetObject");
+        bool map_first = r.chance(1, 3);
+        if (map_first) op1("CreateMap");
+        std::vector<std::string> ks;
+        static const char* u8[] = {"\xe4\xb8\xad", "\xe6\x96\x87", "\xc3\xa9", "\xc3\xbc", "\xf0\x9f\x98\x80", "\xd0\xb6"};
+        auto longkey = [&](bool utf) { std::string k; size_t want = (size_t)r.range(32, r.chance(1, 3) ? 300 : 140); while (k.size() < want) { if (utf && r.chance(2, 3)) k += u8[r.below(6)]; else k += (char)('a' + r.below(26)); if (r.chance(1, 9)) k += '.'; } return k; };
+        size_t n = (size_t)r.range(8, 16);
+        std::string nulstem = std::string("k") + (char)('a' + r.below(3)) + std::string(1, '\0');
+        std::string stem = longkey(r.chance(1, 2));
+        for (size_t i = 0; i < n; i++) {
+          std::string k;
+          switch (r.below(7)) {
+            case 0: k = longkey(true); break;
+            case 1: k = longkey(false); break;
+            case 2: k = model::gen_key(r, go); break;
+            case 3: k = nulstem + (char)('a' + r.below(6)); break;                                  // equal up to the NUL, equal length
+            case 4: k = stem.substr(0, (size_t)r.range(1, (int64_t)stem.size())); break;               // prefixes of one long key
+            case 5: { k = stem; k[r.below(k.size())] ^= (char)(r.chance(1, 2) ? 0x80 : 0x01); break; }   // one byte away from it
+            default: k = std::string(u8[r.below(6)]) + (char)('0' + r.below(10)); break;               // short non-ASCII
+          }
+          bool dup = false; for (auto& e : ks) if (e == k) dup = true;
+          if (dup && !go.dup_keys) continue;
+          ks.push_back(k);
+          Op& o = op1("AddMember"); o.a.push_back((int64_t)r.below(2)); o.s.push_back(k); o.s.push_back(scalar());
+        }
+        if (!map_first) op1("CreateMap");
+        op1("Lookup");
+        if (!ks.empty()) { Op& rm = op1("RemoveMember"); rm.s.push_back(ks[r.below(ks.size())]); op1("Lookup"); }
+        if (!ks.empty() && r.chance(1, 2)) { Op& a2 = op1("AddMember"); a2.a.push_back((int64_t)r.below(2)); a2.s.push_back(ks[r.below(ks.size())] + "~"); a2.s.push_back(scalar()); op1("Lookup"); }
+        break;
+      }
       case 0: { op1("SetObject"); addm((int)r.range(2, 6)); op1("CreateMap"); Op& e = op1("EraseMember"); e.a = {sl, (int64_t)r.range(1, 5), 7, 0}; addm((int)r.range(1, 3)); op1("Lookup"); Op& rm = op1("RemoveMember"); rm.s.push_back(model::gen_key(r, go)); op1("Lookup"); break; }
       case 1: { op1("SetObject"); addm((int)r.range(1, 5)); op1("CreateMap"); Op& rm = op1("RemoveMember"); rm.s.push_back(model::gen_key(r, go)); addm(1); op1("Lookup"); break; }
       case 2: { op1("SetArray"); Op& rs = op1("Reserve"); rs.a.push_back(1); for (int i = 0; i < 3; i++) { Op& pb = op1("PushBack"); pb.s.push_back(scalar()); } break; }
